@@ -139,6 +139,8 @@ type Exec struct {
 	neutralMemo map[*types.Func]int
 	specs    map[string]*specInfo
 	visitedStack []func(*State, Term) Term
+	dry         bool // inside the dry run of a loop body (ghost-effect discovery)
+	inlineDepth int  // > 0 inside an inlined (declared) callee
 	lastIterPos string
 	lastIterDom Term
 	pendingHeapNames map[string]bool
